@@ -306,3 +306,48 @@ Proof.
   split; [vm_compute; reflexivity|]. split; [vm_compute; reflexivity|]. split; [vm_compute; reflexivity|].
   split; [vm_compute; reflexivity|]. vm_compute. discriminate.
 Qed.
+
+(* the per-sample lists of the OUTPUT tables (after the shift) are the k-prefixes of the input's *)
+Definition prefix_lists (tb tb2 : tables) (k : N) : Prop :=
+  durs tb2 = firstnN (durs tb) k /\ sizes tb2 = firstnN (sizes tb) k /\
+  (forall c, t_ctts tb = Some c -> exists c', t_ctts tb2 = Some c' /\ ctos_of c' = firstnN (ctos_of c) k) /\
+  (forall l, t_stss tb = Some l -> t_stss tb2 = Some (filter (fun y => y <=? k) l)) /\
+  (forall l, t_sdtp tb = Some l -> t_sdtp tb2 = Some (firstnN l k)) /\
+  sample_chunks (counts_of tb2) 1 = firstnN (sample_chunks (counts_of tb) 1) k.
+
+Lemma track_prefix file out first' S h t tb' tb2 :
+  static_ok file t -> 1 <= ts_last_sample t <= nsamples (ts_tb t) ->
+  S_chunk_of (ts_tb t) (ts_last_sample t) = Some (ts_last_chunk t) ->
+  lenN (ts_offsets t) = ts_last_chunk t ->
+  (forall c, 1 <= c <= ts_last_chunk t ->
+             exists no, nthN (ts_offsets t) (c - 1) = Some no /\ chunk_placed file out first' t c no) ->
+  first' + lenN out + sumN (sizes (ts_tb t)) < 18446744073709551616 ->
+  S + h + lenN out < 18446744073709551616 ->
+  crop_tables (ts_tb t) (ts_last_sample t) (ts_offsets t) = Ok tb' ->
+  shift_track (shift_delta h S first') tb' = Ok tb2 ->
+  prefix_lists (ts_tb t) tb2 (ts_last_sample t).
+Proof.
+  intros Hst Hk Hch Hlen Hpl Hb Hb2 Hcrop Hshift.
+  pose proof Hst as [Hc _].
+  destruct (crop_tables_inv _ _ _ _ Hcrop) as [_ Hu32].
+  assert (Hno : forall o, In o (ts_offsets t) -> first' <= o /\ o - first' <= lenN out).
+  { intros o Ho. destruct (In_nthN _ _ Ho) as [i Hi]. pose proof (nthN_Some_lt _ _ _ Hi) as Hil.
+    destruct (Hpl (i + 1) ltac:(lia)) as [no [Hn [oo [_ [A [B _]]]]]].
+    replace (i + 1 - 1) with i in Hn by lia. rewrite Hi in Hn. injection Hn as <-. lia. }
+  assert (Hnok : new_offsets_ok (ts_tb t) (ts_last_sample t) (ts_offsets t) = true).
+  { unfold new_offsets_ok. rewrite Hch. apply andb_true_intro. split; [apply andb_true_intro; split|].
+    - lia.
+    - apply forallb_forall. intros o Ho. destruct (Hno o Ho). pose proof (sumN_firstnN_le (sizes (ts_tb t)) (ts_last_sample t)). lia.
+    - destruct (t_stco (ts_tb t)); [exact Hu32|reflexivity]. }
+  destruct (crop_tables_consistent (ts_tb t) Hc _ _ Hk Hnok)
+    as [tb1 [Hcrop1 [_ [_ [Hd [Hsizes [Hct [Hss [Hsd [Hsch Hoffs]]]]]]]]]].
+  rewrite Hcrop in Hcrop1. injection Hcrop1 as <-.
+  assert (Hf : forall o, In o (offsets tb') -> u64 (o + shift_delta h S first') = new_off S h first' o).
+  { intros o Ho. rewrite Hoffs in Ho. destruct (Hno o Ho). apply shift_val; unfold new_off; lia. }
+  destruct (shift_track_spec _ _ tb' tb2 Hf Hshift) as [Ho2 [Hz2 [Hs2 [Hc2 [Hd2 [Hct2 [Hss2 [Hsd2 _]]]]]]]].
+  assert (HC2 : nchunks tb2 = nchunks tb') by (unfold nchunks; rewrite Ho2; unfold lenN; rewrite map_length; reflexivity).
+  unfold prefix_lists. split; [unfold durs in *; rewrite Hc2, Hd2; exact Hd|].
+  split; [unfold sizes in *; rewrite Hz2; exact Hsizes|]. rewrite Hct2, Hss2, Hsd2.
+  split; [exact Hct|]. split; [exact Hss|]. split; [exact Hsd|].
+  unfold counts_of in *. rewrite Hs2, HC2. exact Hsch.
+Qed.
